@@ -19,7 +19,7 @@ import txtfile
 from txtfile import B, L, unB
 
 release_too = True
-KINDS = ("txtf", "txta", "arc")
+KINDS = ("txtf", "txta", "arc", "arca")
 TESTDIR = "/repo/resources/test"
 
 LEMMAS = [
@@ -207,13 +207,13 @@ def arc_cases(rng, tier):
     cases = []
     for _ in range(80 if quick else 4000):
         n = rng.choice([0, 31, 32, 33, rng.randint(0, 64), rng.randint(0, 512)])
-        cases.append(Case("arc " + B(bytes(rng.getrandbits(8) for _ in range(n))), "arc-random-bytes"))
+        cases.append(Case("arca " + B(bytes(rng.getrandbits(8) for _ in range(n))), "arc-random-bytes"))
     for _ in range(200 if quick else 6000):
-        cases.append(Case("arc " + B(structured_random(rng, "L")), "arc-structured-random"))
+        cases.append(Case("arca " + B(structured_random(rng, "L")), "arc-structured-random"))
     samples = sample_arc_files(rng, 4 if quick else 40)
     for f in samples:
         for (what, g) in mutations(rng, "L", f, quick):
-            cases.append(Case("arc " + B(g), "arc-" + what))
+            cases.append(Case("arca " + B(g), "arc-" + what))
     p = os.path.join(TESTDIR, "ArcTest.arc")
     if os.path.exists(p):
         f = open(p, "rb").read()
@@ -226,15 +226,15 @@ def arc_cases(rng, tier):
             for v in (BOUNDARY if not quick else [0, 1, 0x80000000, 0xFFFFFFF0, 0xFFFFFFFF]) + [dsz - 1, dsz, dsz + 1]:
                 g = bytearray(f)
                 g[o:o + 4] = struct.pack("<I", v & 0xFFFFFFFF)
-                cases.append(Case("arc " + B(g), "arc-field-" + what))
+                cases.append(Case("arca " + B(g), "arc-field-" + what))
         # the record fields live at the end of the data region
         for o in range(0x20 + dsz - 0x24, 0x20 + dsz, 4):
             for v in BOUNDARY:
                 g = bytearray(f)
                 g[o:o + 4] = struct.pack("<I", v)
-                cases.append(Case("arc " + B(g), "arc-field-record"))
+                cases.append(Case("arca " + B(g), "arc-field-record"))
         for cut in range(0, len(f), 64 if quick else 5):
-            cases.append(Case("arc " + B(f[:cut]), "arc-truncate"))
+            cases.append(Case("arca " + B(f[:cut]), "arc-truncate"))
     return cases
 
 
@@ -259,9 +259,16 @@ def oracle(case, impl_out, profile):
                 return "re-serialization: " + reser[:60]
         elif not (impl_out.startswith("parse=err:") or impl_out.startswith("build=err")):
             return "unexpected output " + impl_out[:60]
-    elif kind == "arc":
+    elif kind in ("arc", "arca"):
         if not (impl_out.startswith("ok [") or impl_out.startswith("err:")):
             return "unexpected output " + impl_out[:60]
+        if kind == "arca":
+            # "no single buffer larger than a small constant multiple of the input is ever requested on the strength of
+            # such a field": largest single allocation request during arc::from_bytes (counting allocator of the harness)
+            n = len(unB(case.line.split(" ", 2)[1]))
+            mx = int(impl_out.rsplit(" maxalloc=", 1)[1])
+            if mx > 64 * n + 4096:
+                return "%s build: a single allocation request of %d bytes for an input of %d bytes" % (profile, mx, n)
     return None
 
 
@@ -269,7 +276,9 @@ def agree(case, impl_out, model_out, profile):
     kind = case.line.split(" ", 2)[0]
     if kind in ("txtf", "txta"):
         return txtfile.agree_text(case.line.split(" ", 3)[1], impl_out, model_out)
-    if kind == "arc":
+    if kind in ("arc", "arca"):
+        if kind == "arca" and " maxalloc=" in impl_out:
+            impl_out = impl_out.rsplit(" maxalloc=", 1)[0]
         if txtfile.agree_arc(impl_out, model_out):
             return True
         # Count or Info on several addresses (a planted label field can do that): find_label_address returns the first
